@@ -237,6 +237,12 @@ def attr_readback(si: int, k: int, v: int) -> bool:
     d = GetFromAll().get_data(sid)
     if d.get(KEYS[k]) != want or d.get("sid") != str(sid):
         return fail("getfromall-get_data-read-back")
+    # a second write of the SAME LENGTH within the same second, read through the same long-lived Getters
+    v2 = {"": None, "x": "y", 7: 8}.get(VALS[v] if VALS[v] in ("", "x", 7) else "", None)
+    if v2 is not None:
+        w.set(sid, **{KEYS[k]: v2})
+        if sid.get_attr(KEYS[k]) != v2 or GetFromAll().get_attr(sid, KEYS[k]) != v2 or GetFromAll().get_data(sid).get(KEYS[k]) != v2:
+            return fail("second-write-of-the-same-length-not-read-back")
     return True
 
 
